@@ -151,7 +151,7 @@ func main() {
 	}
 
 	// directives in overlay files of any loaded package
-	stubs := map[string]*ssa.Function{}
+	stubs := map[string]map[string]*ssa.Function{"": {}}
 	opaque := map[string]bool{}
 	noinit := map[string]bool{}
 	for _, d := range defaultOpaque {
@@ -195,12 +195,23 @@ func main() {
 					txt := strings.TrimSpace(strings.TrimPrefix(c.Text, "//"))
 					if strings.HasPrefix(txt, "verif:stub ") {
 						name := strings.TrimSpace(strings.TrimPrefix(txt, "verif:stub "))
+						only := []string{""}
+						if i := strings.Index(name, " @"); i > 0 {
+							only = strings.Split(name[i+2:], ",")
+							name = strings.TrimSpace(name[:i])
+						}
 						fn := sp.Func(fd.Name.Name)
 						if fn == nil {
 							fail("stub %s: function %s not found in ssa package", name, fd.Name.Name)
 						}
-						stubs[name] = fn
-						res.Stubs = append(res.Stubs, name+" => "+fn.String())
+						for _, h := range only {
+							h = strings.TrimSpace(h)
+							if stubs[h] == nil {
+								stubs[h] = map[string]*ssa.Function{}
+							}
+							stubs[h][name] = fn
+						}
+						res.Stubs = append(res.Stubs, name+" => "+fn.String()+" "+strings.Join(only, ","))
 					}
 				}
 			}
@@ -258,7 +269,14 @@ func main() {
 		if fn == nil {
 			fail("harness-out-of-date: function %s not found in %s", j.Harness, target.ID)
 		}
-		eng := &sym.Engine{Prog: prog, Stubs: stubs, Opaque: opaque, NoInit: noinit}
+		js := map[string]*ssa.Function{}
+		for k, v := range stubs[""] {
+			js[k] = v
+		}
+		for k, v := range stubs[j.Harness] {
+			js[k] = v
+		}
+		eng := &sym.Engine{Prog: prog, Stubs: js, Opaque: opaque, NoInit: noinit}
 		eng.Cfg = sym.Config{Workers: *workers, MaxPaths: *maxPaths, MaxDecisions: *maxDec, MaxSteps: *maxSteps,
 			MaxDepth: *maxDepth, DelayBound: *delay, Params: j.Params, Known: known, Transcript: *transcript,
 			Verbose: *verbose, TimeBudget: *timeBudget}
